@@ -33,7 +33,7 @@ func applyKnown(all []*Obligation, known []KnownFinding, prop string) []*Obligat
 			out = append(out, o)
 			continue
 		}
-		w := o.env.eval(se).T()
+		w := o.env.evalAssume(se).T()
 		outside := *o
 		outside.Goal = or(w, o.Goal)
 		outside.Prefix = len(o.vc.lines)
